@@ -616,6 +616,31 @@ def run(ctx):
                 ctx.inconclusive('C12.R6', 'castling destination file depends on something other than the castling text: ' + sh(foreign[0], 160))
                 continue
         if okv:
+            # the text denotes CASTLING: e1g1 being among the legal moves is not enough (a rook or queen on e1 may go to g1);
+            # the man on the source square must be the king
+            KING = ('agg', 'core::option::Option', 'Some', (('0', ENUM('piece::Piece', 'King')),))
+            kingly = False
+            for g in guards(s, st['blk']):
+                if g['cond'] is None:
+                    continue
+                cn = norm(inline_private(ctx, g['cond']))
+                tv = truth(g)
+                if cn[0] == 'call' and 'PartialEq' in cn[1] and (cn[1].endswith('::eq') or cn[1].endswith('::ne')) and len(cn[2]) == 2 and tv is not None:
+                    pos = (cn[1].endswith('::eq') == tv)
+                    for x, y in ((cn[2][0], cn[2][1]), (cn[2][1], cn[2][0])):
+                        if pos and y == KING and x[0] == 'call' and x[1] == 'board::Board::piece_on':
+                            kingly = True
+                        if pos and x[0] == 'call' and x[1] == 'board::Board::king_square' and y[0] == 'call' and \
+                                y[1] in ('square::Square::make_square', 'chess_move::ChessMove::get_source'):
+                            kingly = True
+                if cn[0] == 'discr' and cn[1][0] == 'field' and cn[1][1][0] == 'variant' and cn[1][1][1][0] == 'call' and \
+                        cn[1][1][1][1] == 'board::Board::piece_on' and g['vals'] == [ctx.facts().enum_discr('piece::Piece', 'King')]:
+                    kingly = True
+            if kingly:
+                ctx.ok('C12.R6', 'castling is accepted only when the king stands on the e-file home square', where(body, st['line']))
+            else:
+                ctx.violation('C12.R6', KEY + ':castle-king', "'O-O' / 'O-O-O' is accepted for whatever man stands on the e-file home square: when a "
+                              'rook or queen there can legally go to the g- / c-file, the castling text returns that move', where(body, st['line']))
             ctx.ok('C12.R6', 'castling denotes king e-file -> g-file (O-O) / c-file (O-O-O) on the mover\'s back rank', where(body, st['line']))
         else:
             ctx.violation('C12.R6', KEY + ':castle-move', 'castling text is mapped to ' + sh(v, 300), where(body, st['line']))
